@@ -17,7 +17,7 @@ def catalogue_marshal_only():
 
 
 # flavour markers of gen/catalogue.py: another Rust type for the same D-Bus type (same tree, same tokens)
-BASE_FLAVOUR = {"D": "d", "S": "s", "O": "o", "G": "g"}
+BASE_FLAVOUR = {"D": "d", "S": "s", "O": "o", "G": "g", "H": "h"}
 ARRAY_FLAVOUR = "CRNB"
 
 
